@@ -433,6 +433,8 @@ func runC02(c *Ctx) {
 		ruleFrameLayout(c, p, "C02.frame", rb, wr)
 	}
 	ruleVectoredEquiv(c, p, "C02.vectored")
+	ruleInputStream(c, p, r, "C02.input")
+	ruleWriterInvariant(c, p, "C02.writer")
 	c.R.Assumptions = append(c.R.Assumptions,
 		"the byte-level shape of each packet under every revision is decided by C17 (messages) and C01 (blocks); here: order of emissions, provenance of the packet's fields, block framing, who may write, negotiated-revision arguments, frame layout",
 		"not decided: that the resulting bytes parse under an independent reference parser (no second implementation is run)")
